@@ -23,81 +23,148 @@ import z3
 from engine import families, report, symnum
 
 PID = "C08"
-CONV = "/repo/src/measured/conversions.py"
-INIT = "/repo/src/measured/__init__.py"
+CONV = os.environ.get("VERIF_REPO", "/repo") + "/src/measured/conversions.py"
+INIT = os.environ.get("VERIF_REPO", "/repo") + "/src/measured/__init__.py"
 TABLES = {"_ratios", "_offsets"}
 NONE, EMPTY = -99, -98
+MC: Dict[str, Any] = {}
 
 
 def analyse(path: str) -> Dict[str, Any]:
+    """Per function: is it lru_cache'd, what it calls, whether it reads/writes the declaration
+    tables, which caches it clears.  A *cache* is either an lru_cache'd function (named after
+    the function) or a module-level memo table: a name bound at module level to a dict that is
+    not one of the declaration tables and that some function stores into (named after the
+    table); a function that stores into a memo table is memoised through it."""
     tree = ast.parse(open(path).read())
     funcs: Dict[str, ast.FunctionDef] = {}
     for node in ast.walk(tree):
         if isinstance(node, ast.FunctionDef):
             funcs.setdefault(node.name, node)
+    module_names = set()
+    for node in tree.body:
+        tgts = node.targets if isinstance(node, ast.Assign) else [node.target] if isinstance(node, ast.AnnAssign) else []
+        val = getattr(node, "value", None)
+        is_map = isinstance(val, ast.Dict) or (isinstance(val, ast.Call) and ast.unparse(val.func).split(".")[-1] in
+                                               ("dict", "defaultdict", "OrderedDict", "WeakKeyDictionary",
+                                                "WeakValueDictionary"))
+        for t in tgts:
+            if isinstance(t, ast.Name) and is_map and t.id not in TABLES:
+                module_names.add(t.id)
+
+    def base_name(node: ast.AST) -> str:
+        while isinstance(node, (ast.Subscript, ast.Attribute)) and not (
+                isinstance(node, ast.Attribute) and isinstance(node.value, ast.Name) and node.value.id in ("self", "cls")):
+            node = node.value
+        return node.id if isinstance(node, ast.Name) else (node.attr if isinstance(node, ast.Attribute) else "")
+
     info: Dict[str, Any] = {}
     for name, fn in funcs.items():
         cached = any("lru_cache" in ast.unparse(d) or ast.unparse(d).endswith("cache")
                      for d in fn.decorator_list)
-        calls, reads, writes, clears = set(), set(), set(), set()
+        calls, reads, writes, clears, stores, memo_reads = set(), set(), set(), set(), set(), set()
         for n in ast.walk(fn):
             if isinstance(n, ast.Call):
                 f = n.func
                 if isinstance(f, ast.Name):
                     calls.add(f.id)
                 elif isinstance(f, ast.Attribute):
+                    owner = ast.unparse(f.value).split(".")[-1]
                     if f.attr == "cache_clear":
-                        clears.add(ast.unparse(f.value).split(".")[-1])
+                        clears.add(owner)
+                    elif f.attr == "clear" and owner in module_names:
+                        clears.add(owner)
+                    elif f.attr in ("setdefault", "update", "__setitem__") and owner in module_names:
+                        stores.add(owner)
                     calls.add(f.attr)
             if isinstance(n, ast.Name) and n.id in TABLES:
                 reads.add(n.id)
             if isinstance(n, ast.Attribute) and n.attr in TABLES:
                 reads.add(n.attr)
-            if isinstance(n, (ast.Assign, ast.AugAssign)):
+            if isinstance(n, ast.Name) and n.id in module_names and isinstance(n.ctx, ast.Load):
+                memo_reads.add(n.id)
+            if isinstance(n, (ast.Assign, ast.AugAssign, ast.AnnAssign)):
                 tgts = n.targets if isinstance(n, ast.Assign) else [n.target]
                 for t in tgts:
-                    if isinstance(t, ast.Subscript) and any(
-                            (isinstance(x, ast.Name) and x.id in TABLES) or
-                            (isinstance(x, ast.Attribute) and x.attr in TABLES) for x in ast.walk(t.value)):
-                        writes.add("tables")
-        info[name] = {"cached": cached, "calls": calls, "reads": reads, "writes": writes, "clears": clears}
-    # transitive reads
+                    if isinstance(t, ast.Subscript):
+                        bn = base_name(t)
+                        if bn in TABLES:
+                            writes.add("tables")
+                        elif bn in module_names:
+                            stores.add(bn)
+                    elif isinstance(t, ast.Name) and t.id in module_names and any(
+                            isinstance(g, ast.Global) and t.id in g.names for g in ast.walk(fn)):
+                        clears.add(t.id)          # `global M; M = {}`
+        info[name] = {"cached": cached, "calls": calls, "reads": reads, "writes": writes, "clears": clears,
+                      "stores": stores, "memo_reads": memo_reads}
+    # transitive reads and clears
     changed = True
     while changed:
         changed = False
         for name, d in info.items():
             for c in d["calls"]:
-                if c in info and not info[c]["reads"] <= d["reads"]:
-                    d["reads"] |= info[c]["reads"]
-                    changed = True
+                if c in info and c != name:
+                    for k in ("reads", "clears"):
+                        if not info[c][k] <= d[k]:
+                            d[k] |= info[c][k]
+                            changed = True
+    info["__memo_tables__"] = {"names": sorted(module_names)}
     return info
+
+
+def reaches(info: Dict[str, Any], src: str, dst: str) -> bool:
+    seen, stack = set(), [src]
+    while stack:
+        f = stack.pop()
+        if f == dst:
+            return True
+        if f in seen or f not in info or f.startswith("__"):
+            continue
+        seen.add(f)
+        stack.extend(info[f]["calls"])
+    return False
 
 
 def machine() -> Dict[str, Any]:
     info = analyse(CONV)
-    cached = sorted(n for n, d in info.items() if d["cached"] and d["reads"] & TABLES)
+    memo_tables = info.pop("__memo_tables__")["names"]
+    # cache of a function: its lru_cache (named after it) or the memo table it stores into
+    cache_of: Dict[str, str] = {}
+    for n, d in info.items():
+        if d["cached"] and d["reads"] & TABLES:
+            cache_of[n] = n
+        elif d["stores"] and d["reads"] & TABLES:
+            if len(d["stores"]) > 1:
+                raise symnum.HarnessError(f"{n} stores into several memo tables {sorted(d['stores'])}: no model")
+            cache_of[n] = next(iter(d["stores"]))
+    cached = sorted(cache_of)
     writers = sorted(n for n, d in info.items() if d["writes"])
     clears = {w: sorted(info[w]["clears"]) for w in writers}
     known = {"_find_path", "_plan_conversion"}
     # any other cached reader of the tables gets the generic stale-row model (search_generic)
     generic = sorted(set(cached) - known)
-    for needed in ("convert", "_plan_conversion", "_find_path", "_inline_paths", "equate", "translate"):
+    for needed in ("convert", "_plan_conversion", "_find_path", "equate", "translate"):
         if needed not in info:
             raise symnum.HarnessError(f"conversions.{needed} not found: the cache model does not apply")
-    if "_find_path" not in info["_plan_conversion"]["calls"] or \
-            "_plan_conversion" not in info["convert"]["calls"]:
+    if not reaches(info, "_plan_conversion", "_find_path") or not reaches(info, "convert", "_plan_conversion"):
         raise symnum.HarnessError("call structure convert -> _plan_conversion -> _find_path changed")
     # caches outside conversions.py must not read the declaration tables
     other = analyse(INIT)
+    other.pop("__memo_tables__")
     generic += sorted(n for n, d in other.items() if d["cached"] and d["reads"] & TABLES)
+    for n in generic:
+        cache_of.setdefault(n, n)
     if set(writers) != {"equate", "translate"}:
         raise symnum.HarnessError(f"writers of the declaration tables changed: {writers}")
-    return {"cached": cached, "writers": writers, "clears": clears,
+    cleared = lambda fn, w: cache_of.get(fn) in clears[w]
+    return {"cached": cached, "writers": writers, "clears": clears, "cache_of": cache_of,
+            "memo_tables": memo_tables,
+            "explicit_memo": sorted(n for n in cached if cache_of[n] != n),
             "generic_caches": generic,
-            "generic_cleared": {c: {w: c in clears[w] for w in writers} for c in generic},
+            "generic_cleared": {c: {w: cleared(c, w) for w in writers} for c in generic},
             "path_cached": "_find_path" in cached, "plan_cached": "_plan_conversion" in cached,
-            "path_cleared": {w: "_find_path" in clears[w] for w in writers},
-            "plan_cleared": {w: "_plan_conversion" in clears[w] for w in writers},
+            "path_cleared": {w: cleared("_find_path", w) for w in writers},
+            "plan_cleared": {w: cleared("_plan_conversion", w) for w in writers},
             "other_module_caches": sorted(n for n, d in other.items() if d["cached"])}
 
 
@@ -324,6 +391,11 @@ def validate_abstraction(rep: report.Report, tier: str) -> int:
     graphs = list(itertools.product(weights, repeat=3))
     code = REPLAY_LIB + r'''
 graphs = json.loads(sys.argv[1])
+CACHES = json.loads(sys.argv[2])
+def empty_caches():
+    for name in CACHES:
+        obj = getattr(conversions, name)
+        (obj.cache_clear if hasattr(obj, "cache_clear") else obj.clear)()
 res = []
 for gi, g in enumerate(graphs):
     us = [Length.unit(f"c08-v{gi}-{i}", f"c08-v{gi}-{i}") for i in range(3)]
@@ -334,7 +406,7 @@ for gi, g in enumerate(graphs):
     for i in range(3):
         for j in range(3):
             if i == j: continue
-            conversions._find_path.cache_clear(); conversions._plan_conversion.cache_clear()
+            empty_caches()
             try:
                 row.append(float((1 * us[i]).in_unit(us[j]).magnitude))
             except conversions.ConversionNotFound:
@@ -342,8 +414,8 @@ for gi, g in enumerate(graphs):
     res.append(row)
 print(json.dumps(res))
 '''
-    p = subprocess.run([report.REPO_PY, "-c", code, json.dumps(graphs)], capture_output=True, text=True,
-                       timeout=300, cwd="/")
+    p = subprocess.run([report.REPO_PY, "-c", code, json.dumps(graphs), json.dumps(sorted(set(MC["cache_of"].values())))],
+                       capture_output=True, text=True, timeout=300, cwd="/")
     if p.returncode != 0:
         raise symnum.HarnessError(f"abstraction validation failed to run: {p.stderr[-500:]}")
     real = json.loads(p.stdout.strip().splitlines()[-1])
@@ -473,6 +545,7 @@ def main(tier: str, selftest_cases: int = 0) -> int:
     rep = report.Report(PID, tier, "model_checking")
     families.boot()
     mc = machine()
+    MC.update(mc)
     validated = validate_abstraction(rep, tier)
     bounds = [(3, 3), (3, 4), (3, 5)] if tier == "quick" else [(3, 3), (3, 5), (3, 7), (4, 5), (4, 6)]
     states = transitions = replayed = 0
